@@ -15,7 +15,7 @@ import sys
 import time
 
 VERIF = os.path.dirname(os.path.dirname(os.path.abspath(__file__)))
-SCRATCH = "/tmp/verif-selftest"
+SCRATCH = "/tmp/verif-selftest" + ("-" + os.environ["VERIF_SLOT"] if os.environ.get("VERIF_SLOT") else "")
 
 
 def sh(cmd, **kw):
@@ -46,7 +46,7 @@ def main(argv):
                 continue
             for prop in m["property"].split(","):
                 t0 = time.time()
-                env = dict(os.environ, REMOC_SRC=SCRATCH, VERIF_EVIDENCE_DIR="/tmp/verif-selftest-evidence")
+                env = dict(os.environ, REMOC_SRC=SCRATCH, VERIF_EVIDENCE_DIR=SCRATCH + "-evidence")
                 r = subprocess.run([os.path.join(VERIF, "check"), prop, "quick"], env=env, text=True,
                                    stdout=subprocess.PIPE, stderr=subprocess.STDOUT)
                 viol = [l for l in r.stdout.splitlines() if l.startswith("VIOLATION")]
@@ -69,7 +69,7 @@ def main(argv):
                     print("   " + "\n   ".join(r.stdout.splitlines()[-12:]))
     finally:
         sh(f"git -C /repo worktree remove --force {SCRATCH}")
-        sh("rm -rf /tmp/verif-selftest-evidence")
+        sh(f"rm -rf {SCRATCH}-evidence")
     rp = os.path.join(VERIF, "mutants", "last_results.json")
     old = {}
     if os.path.exists(rp):
